@@ -340,11 +340,11 @@ fn renameall(req: &Value) -> Value {
 // ------------------------------------------------------------------------------------------------ C11: edit histories
 /// one workspace state: {"files":[{"id":k,"path":..,"text":..,"root":i}..], "roots":[{"path":..,"local":bool,"deps":[..],"toml":id}..]}
 fn state_change(ws: &Value, prev: Option<&Value>, always_structure: bool) -> Change {
-    state_change2(ws, prev, always_structure, false)
+    state_change2(ws, prev, always_structure, 0)
 }
 
 /// `double`: every changed text is queued twice in the Change, an intermediate text first (a didChange notification with several edits)
-fn state_change2(ws: &Value, prev: Option<&Value>, always_structure: bool, double: bool) -> Change {
+fn state_change2(ws: &Value, prev: Option<&Value>, always_structure: bool, double: u8) -> Change {
     let mut change = Change::default();
     let files = ws["files"].as_array().unwrap();
     let roots = ws["roots"].as_array().unwrap();
@@ -368,9 +368,13 @@ fn state_change2(ws: &Value, prev: Option<&Value>, always_structure: bool, doubl
     for f in files {
         let old = prev.and_then(|p| p["files"].as_array().unwrap().iter().find(|g| g["id"] == f["id"]));
         if old.map_or(true, |o| o["text"] != f["text"]) {
-            if double {
+            if double == 1 {
                 change.change_file(FileId(f["id"].as_u64().unwrap() as u32), format!("{}\npub fn draft() {{ 0 }}\n", f["text"].as_str().unwrap()).into());
             }
+            change.change_file(FileId(f["id"].as_u64().unwrap() as u32), f["text"].as_str().unwrap().into());
+        } else if double == 2 {
+            // an edit and its undo inside ONE Change: the file ends with the text the host already has
+            change.change_file(FileId(f["id"].as_u64().unwrap() as u32), format!("{}\npub fn draft() {{ 0 }}\n", f["text"].as_str().unwrap()).into());
             change.change_file(FileId(f["id"].as_u64().unwrap() as u32), f["text"].as_str().unwrap().into());
         }
     }
@@ -551,7 +555,8 @@ fn history(req: &Value) -> Value {
     let mut answers = 0usize;
     let mut panics = 0usize;
     for (i, ws) in states.iter().enumerate() {
-        let ch = state_change2(ws, if i == 0 { None } else { Some(&states[i - 1]) }, always, req["double_writes"].as_bool().unwrap_or(false));
+        let double = if req["double_writes"].as_str() == Some("undo") { 2 } else if req["double_writes"].as_bool().unwrap_or(false) { 1 } else { 0 };
+        let ch = state_change2(ws, if i == 0 { None } else { Some(&states[i - 1]) }, always, double);
         host.apply_change(ch);
         if !req["check"][i].as_bool().unwrap_or(i + 1 == states.len()) {
             continue;
